@@ -505,15 +505,14 @@ class Lattice():
         See :meth:`yastn.Tensor.from_dict` for further description.
         """
         if 'dict_ver' not in d:  # d from a legacy method save_to_dict
-            if 'lattice' in d:
-                d['type'] = d['lattice']  # for backward compatibility
-            if d['type'] in ["square", "SquareLattice"]:
+            d_type = d['lattice'] if 'lattice' in d else d['type']  # for backward compatibility
+            if d_type in ["square", "SquareLattice"]:
                 net = SquareLattice(dims=d['dims'], boundary=d['boundary'])
-            elif d['type'] in ["checkerboard", "CheckerboardLattice"]:
+            elif d_type in ["checkerboard", "CheckerboardLattice"]:
                 net = CheckerboardLattice()
-            elif d['type'] in ["rectangularunitcell", "RectangularUnitcell"]:
+            elif d_type in ["rectangularunitcell", "RectangularUnitcell"]:
                 net = RectangularUnitcell(pattern=d['pattern'])
-            elif d['type'] in ["triangular", "TriangularLattice"]:
+            elif d_type in ["triangular", "TriangularLattice"]:
                 net = TriangularLattice()
             psi = cls(net)
             for site in psi.sites():
